@@ -22,10 +22,17 @@ fn strictified(ctx: &mut Ctx, api: &str, class: &str, f: &L, input: &dyn Fn() ->
     walk(ctx, api, class, &s, input)
 }
 
+/// nodes, hyperedges and interfaces equal field for field; pending pairs equal as a multiset of
+/// unordered pairs (neither the list order nor the orientation of a pair carries meaning)
+fn same_lax_up_to_pairs(a: &PL, b: &PL) -> bool {
+    let norm = |q: &Vec<(usize, usize)>| { let mut v: Vec<(usize, usize)> = q.iter().map(|&(x, y)| (x.min(y), x.max(y))).collect(); v.sort(); v };
+    a.w == b.w && a.e == b.e && a.s == b.s && a.t == b.t && norm(&a.q) == norm(&b.q)
+}
+
 impl C10 {
     fn round_trips(&self, ctx: &mut Ctx, r: &mut Rng, fixed: Option<P>) {
         let f = fixed.unwrap_or_else(|| {
-            let pa = if r.chance(1, 2) { OhParams::small() } else { OhParams::dense() };
+            let pa = if r.chance(1, 20) { ctx.class("round_trip_of_a_medium_diagram"); OhParams::medium() } else if r.chance(1, 2) { OhParams::small() } else { OhParams::dense() };
             gen::oh(r, &pa)
         });
         let input = || json!({"f": show(&f)});
@@ -38,6 +45,7 @@ impl C10 {
             ctx.count("wf:walked");
             let pl = from_lax_raw(&l);
             ctx.check(pl == f.to_lax() && wf_lax(&l).is_empty(), "from_strict/same-data/value/any", || json!({"input": input(), "observed": show_lax(&pl)}));
+            ctx.check(l.hypergraph.is_strict(), "is_strict/true-without-pending-unifications/value/any", || json!({"input": input()}));
             if let Some(back) = lib(ctx, "to_strict", "any", &input, || l.to_strict()) {
                 if let Some(pb) = walk(ctx, "to_strict", "any", &back, &input) {
                     ctx.count("law:strict-lax-strict");
@@ -63,7 +71,7 @@ impl C10 {
         if let Some(s) = lib(ctx, "to_strict", "any", &input, move || g2.to_strict()) {
             if let Some(back) = lib(ctx, "from_strict", "any", &input, || L::from_strict(s)) {
                 ctx.count("law:lax-strict-lax");
-                ctx.check(back == g, "from_strict∘to_strict/round-trip-unchanged/value/quotient_free", || json!({"input": input(), "observed": show_lax(&from_lax_raw(&back))}));
+                ctx.check(back == g && from_lax_raw(&back) == f.to_lax() && wf_lax(&back).is_empty(), "from_strict∘to_strict/round-trip-unchanged/value/quotient_free", || json!({"input": input(), "observed": show_lax(&from_lax_raw(&back))}));
             }
         }
         // hypergraph-level conversion
@@ -154,6 +162,14 @@ impl C10 {
                 return;
             }
         };
+        // each operand: the library's quotient-and-convert agrees with the model quotient
+        for (name, l, m, pl) in [("f", &lf, &sf_, &f), ("g", &lg, &sg_, &g)] {
+            ctx.check(l.hypergraph.is_strict() == pl.q.is_empty(), "is_strict/iff-no-pending-unifications/value/any", || json!({"input": input(), "operand": name}));
+            if let Some(p) = strictified(ctx, "to_strict", "operand", l, &input) {
+                ctx.count("law:to_strict-is-the-model-quotient");
+                expect_iso(ctx, "to_strict", "is-the-model-quotient", "operand", &p, m, &input);
+            }
+        }
         // compose: defined iff the types match
         if let Some(c) = lib(ctx, "lax::compose", "any", &input, || Arrow::compose(&lf, &lg)) {
             ctx.check(c.is_some() == types_match, "lax::compose/defined-iff-types-match/value/any", || json!({"input": input(), "observed_some": c.is_some(), "expected_some": types_match}));
@@ -169,13 +185,43 @@ impl C10 {
                 law(ctx, "strict(f;g)=strict(f);strict(g)", "types_match", lhs, rhs, &input);
             }
         }
+        // raw data of the lax composite: juxtaposition, one pending pair per boundary position, outer interfaces
+        let raw_want: Option<PL> = if arity_match {
+            let n = f.w.len();
+            let mut w = f.tensor(&g);
+            for (u, v) in f.t.iter().zip(g.s.iter()) {
+                w.q.push((*u, v + n));
+            }
+            w.s = f.s.clone();
+            w.t = g.t.iter().map(|v| v + n).collect();
+            Some(w)
+        } else {
+            None
+        };
         // `>>` sugar agrees with compose
         if let Some(c) = lib(ctx, "lax::shr", "any", &input, || &lf >> &lg) {
             ctx.check(c.is_some() == types_match, "lax::shr/defined-iff-types-match/value/any", || json!({"input": input(), "observed_some": c.is_some()}));
+            if let (Some(c), Some(w), true) = (&c, &raw_want, types_match) {
+                let got = from_lax_raw(c);
+                ctx.check(same_lax_up_to_pairs(&got, w) && wf_lax(c).is_empty(), "lax::shr/juxtaposition-plus-boundary-pairs/value/any", || json!({"input": input(), "observed": show_lax(&got), "expected": show_lax(w)}));
+            }
         }
         // lax_compose: defined iff the arities match
         if let Some(c) = lib(ctx, "lax_compose", "any", &input, || lf.lax_compose(&lg)) {
             ctx.check(c.is_some() == arity_match, "lax_compose/defined-iff-arities-match/value/any", || json!({"input": input(), "observed_some": c.is_some(), "expected_some": arity_match}));
+            if let (Some(c), Some(w)) = (&c, &raw_want) {
+                let got = from_lax_raw(c);
+                let cls = if types_match { "types_match" } else { "label_mismatch" };
+                ctx.check(same_lax_up_to_pairs(&got, w) && wf_lax(c).is_empty(), &format!("lax_compose/juxtaposition-plus-boundary-pairs/value/{}", cls), || json!({"input": input(), "observed": show_lax(&got), "expected": show_lax(w)}));
+                if !types_match {
+                    // a boundary position joins two different labels: the composite cannot be quotiented
+                    let mut c2 = c.clone();
+                    if let Some(q) = lib(ctx, "quotient", "label_mismatch", &input, || c2.quotient().is_ok()) {
+                        ctx.count("law:label-mismatch-surfaces-at-quotient");
+                        ctx.check(!q, "lax_compose/label-mismatch-surfaces-at-quotient/value/label_mismatch", || json!({"input": input(), "observed": "quotient succeeded"}));
+                    }
+                }
+            }
             if let (Some(c), true) = (c, types_match) {
                 if let Some(p) = strictified(ctx, "lax_compose", "any", &c, &input) {
                     let want = sf_.compose(&sg_).expect("types match");
@@ -202,7 +248,7 @@ impl C10 {
             let y = lg.clone();
             if lib(ctx, "tensor_assign", "any", &input, || x.tensor_assign(y)).is_some() {
                 ctx.count("law:tensor_assign=tensor");
-                ctx.check(x == pure, "tensor_assign/same-data-as-tensor/value/any", || json!({"input": input(), "observed": show_lax(&from_lax_raw(&x)), "expected": show_lax(&from_lax_raw(&pure))}));
+                ctx.check(x == pure && same_lax_up_to_pairs(&from_lax_raw(&x), &from_lax_raw(&pure)) && lax_lens(&x) == lax_lens(&pure), "tensor_assign/same-data-as-tensor/value/any", || json!({"input": input(), "observed": show_lax(&from_lax_raw(&x)), "expected": show_lax(&from_lax_raw(&pure))}));
             }
             let mut x = lf.clone();
             let y = lg.clone();
@@ -213,13 +259,16 @@ impl C10 {
                 let os: Vec<usize> = s.iter().map(|v| v.0).collect();
                 let ot: Vec<usize> = t.iter().map(|v| v.0).collect();
                 ctx.check(os == ws && ot == wt, "append/returns-offset-interfaces/value/any", || json!({"input": input(), "observed": [os.clone(), ot.clone()], "expected": [ws.clone(), wt.clone()]}));
-                ctx.check(x.hypergraph == pure.hypergraph && x.sources == lf.sources && x.targets == lf.targets, "append/same-hypergraph-boundaries-untouched/value/any", || {
+                let raw_same = { let mut a = from_lax_raw(&x); let mut b = from_lax_raw(&pure); a.s = vec![]; a.t = vec![]; b.s = vec![]; b.t = vec![]; same_lax_up_to_pairs(&a, &b) && lax_lens(&x) == lax_lens(&pure) };
+                ctx.check(raw_same && x.hypergraph == pure.hypergraph && x.sources == lf.sources && x.targets == lf.targets, "append/same-hypergraph-boundaries-untouched/value/any", || {
                     json!({"input": input(), "observed": show_lax(&from_lax_raw(&x))})
                 });
             }
             let mut h = lf.hypergraph.clone();
             if lib(ctx, "coproduct_assign", "any", &input, || h.coproduct_assign(lg.hypergraph.clone())).is_some() {
-                ctx.check(h == pure.hypergraph, "coproduct_assign/same-data-as-coproduct/value/any", || json!({"input": input()}));
+                let wrap = |h: &lax::Hypergraph<u32, u64>| lax::OpenHypergraph { sources: vec![], targets: vec![], hypergraph: h.clone() };
+                let (a, b) = (wrap(&h), wrap(&pure.hypergraph));
+                ctx.check(h == pure.hypergraph && same_lax_up_to_pairs(&from_lax_raw(&a), &from_lax_raw(&b)) && lax_lens(&a) == lax_lens(&b), "coproduct_assign/same-data-as-coproduct/value/any", || json!({"input": input()}));
             }
         }
         ctx.sample("operations", || input());
@@ -257,7 +306,11 @@ impl C10 {
         let n = a.len();
         let (ks, kt) = (r.small(4), r.small(4));
         let (s, t) = if n == 0 { (vec![], vec![]) } else { (r.vec_below(ks, n), r.vec_below(kt, n)) };
-        if let Some(sp) = lib(ctx, "lax::spider", "objects", &input, || <L as Spider<_>>::spider(ff(s.clone(), n), ff(t.clone(), n), a.clone())).flatten() {
+        let sp = lib(ctx, "lax::spider", "objects", &input, || <L as Spider<_>>::spider(ff(s.clone(), n), ff(t.clone(), n), a.clone()));
+        if let Some(o) = &sp {
+            ctx.check(o.is_some(), "lax::spider/defined-on-legs-into-the-node-list/value/objects", || json!({"input": input(), "s": s, "t": t}));
+        }
+        if let Some(sp) = sp.flatten() {
             if let Some(p) = strictified(ctx, "lax::spider", "objects", &sp, &input) {
                 expect_iso(ctx, "lax::spider", "strictify-commutes", "objects", &p, &POh::spider(s.clone(), t.clone(), a.clone()), &input);
             }
@@ -300,6 +353,9 @@ impl Monitor for C10 {
             ("api:append", 100),
             ("api:coproduct_assign", 100),
             ("api:lax_compose", 100),
+            ("law:to_strict-is-the-model-quotient", 200),
+            ("law:label-mismatch-surfaces-at-quotient", 30),
+            ("class:round_trip_of_a_medium_diagram", 20),
         ]
     }
     fn run_case(&self, idx: u64, r: &mut Rng, ctx: &mut Ctx) {
